@@ -334,6 +334,31 @@ def run_visit(payload):
             repl = {int(k): build(g) for k, g in c["sub"].items()}
             if size(p) * max([1] + [size(q) + len(q.operands) for q in repl.values()]) > 4 * maxlit:
                 raise TooBig()
+            # predicted size of the rebuilt predicate: a replaced leaf contributes its groups (under NOT: one group per
+            # way of picking a literal out of every group -- the exponential cost of NOT, refused before computing),
+            # an OR-group is the product of its leaves' groups
+            total = 0
+            for g in p.operands:
+                ngroups, width = 1, 0
+                for a, pos in cnf_json((g,))[0]:
+                    q = repl.get(a)
+                    if q is None:
+                        lg, lw = 1, 1
+                    elif pos:
+                        lg, lw = len(q.operands), max((len(x) for x in q.operands), default=0)
+                    else:
+                        lg, lw = 1, len(q.operands)
+                        for x in q.operands:
+                            lg *= len(x)
+                            if lg * max(lw, 1) > 4 * maxlit:
+                                raise TooBig()
+                    ngroups *= max(lg, 1) if lg else 0
+                    width += lw
+                    if ngroups * max(width, 1) > 4 * maxlit:
+                        raise TooBig()
+                total += ngroups * max(width, 1)
+                if total > 4 * maxlit:
+                    raise TooBig()
             r = p.visit(Sub(repl))
             none = r is None
             if none:
